@@ -355,6 +355,74 @@ Plan genHostile(const std::string& prop, int tier, uint64_t batchSeed, uint64_t 
     const int tecmpNode = static_cast<int>(nNodes + 1), noiseNode = static_cast<int>(nNodes + 2);
     g.addNode(tecmpNode, 3, 0, 0);
     g.addNode(noiseNode, 4, 0, 0);
+    if (c02 && r.chance(tier ? 3 : 1, 8))
+    {
+        // systematic part: one base frame, delivered again and again with EVERY truncation length and with every
+        // boundary value of every length / type / flag field, on a fresh decoder or on one with a seeded history
+        const bool freshEach = r.chance(1, 2);
+        const size_t nHist = freshEach ? 0 : r.below(12);
+        for (size_t k = 0; k < nHist; ++k)
+            addTrafficOp(g, static_cast<int>(1 + r.below(nNodes)), nodeType[r.below(nNodes)] == 1 ? 2 : 2, true, 4);
+        const bool tecmpBase = r.chance(1, 3);
+        int64_t est;
+        if (tecmpBase)
+        {
+            addTecmpOp(g, tecmpNode, false);
+            est = 28 + 5 + g.plan.items.back().get("n") + 40;
+        }
+        else
+        {
+            int ni = static_cast<int>(r.below(nNodes));
+            addTrafficOp(g, ni + 1, 2, r.chance(1, 3), 3);
+            est = 8;
+            for (auto& m : g.plan.items.back().sub)
+                est += 16 + m.get("len") + m.get("trail");
+        }
+        const Item base = g.plan.items.back();
+        if (base.get("k") == OP_RAWSEG || est > 260)
+            est = std::min<int64_t>(est, 260);
+        auto again = [&](int type, int64_t a, int64_t b, int64_t c)
+        {
+            Item op = base;
+            op.set("t", g.clock += 3);
+            addFault(op, type, r.below(3), a, b, c);
+            g.plan.items.push_back(op);
+            if (freshEach)
+                g.addOp(OP_RXRESTART, -1, 0);
+        };
+        for (int64_t k = 0; k <= est + 2; ++k)
+            again(F_TRUNC, k, 0, 0);
+        static const int64_t vals8[] = {0, 1, 2, 3, 4, 7, 8, 0x0C, 0x0F, 0x10, 0x40, 0x44, 0x7F, 0x80, 0xFE, 0xFF};
+        const int64_t n = est;
+        const int64_t vals16[] = {0, 1, n - 26, n - 25, n - 24, n - 23, n - 22, n - 10, n - 9, n - 8, n, n + 1, 0x7FFF, 0x8000, 0xFFFE, 0xFFFF};
+        if (tecmpBase)
+        {
+            for (int64_t v : vals16)
+                if (v >= 0)
+                    again(F_SETFIELD, FLD_TECMP_PLEN, 0, v);
+            for (int64_t v = 0; v < 256; v += (tier ? 1 : 5))
+                again(F_SETFIELD, FLD_TECMP_INNER, static_cast<int64_t>(r.below(2)), v);
+            for (int64_t v : vals8)
+                again(F_SETFIELD, FLD_TECMP_MTYPE, 0, v);
+            for (int64_t v : {int64_t(0), int64_t(1), int64_t(2), int64_t(3), int64_t(4), int64_t(5), int64_t(8), int64_t(0xFF), int64_t(0xFF00), int64_t(0xFFFF)})
+                again(F_SETFIELD, FLD_TECMP_DTYPE, 0, v);
+        }
+        else
+        {
+            for (int fld : {FLD_MSG_PLEN, FLD_INNER_LEN, FLD_INNER_LEN2})
+                for (int64_t v : vals16)
+                    if (v >= 0)
+                        again(F_SETFIELD, fld, static_cast<int64_t>(r.below(3)), fld == FLD_INNER_LEN2 ? (v | (static_cast<int64_t>(r.below(4)) << 16)) : v);
+            for (int fld : {FLD_MSG_PTYPE, FLD_MSG_FLAGS, FLD_VERSION, FLD_MTYPE})
+                for (int64_t v : vals8)
+                    again(F_SETFIELD, fld, static_cast<int64_t>(r.below(3)), v);
+            if (tier)
+                for (int64_t v = 0; v < 256; ++v)
+                    again(F_SETFIELD, r.pick<int64_t>({FLD_MSG_PTYPE, FLD_MSG_FLAGS, FLD_INNER_LEN}), 0, v);
+        }
+        g.cfg().set("systematic", 1);
+        return std::move(g.plan);  // ops are already in time order
+    }
     size_t nOps;
     if (tier && r.chance(1, 50))
         nOps = 2000 + r.below(3000);  // soak
